@@ -10,7 +10,11 @@ Values.  `Val` is the fragment of `PropertyValue` the correspondence generates:
 null, booleans, integers, floats *restricted to multiples of 1/2* (`flt h` is `h/2`; every such
 value with small `h` is exact in an `f64` and `i64 → f64` is exact on the integers used, so
 no floating point occurs in the model), ASCII strings (`str` carries the bytes) and lists of
-integers.  DateTime / Duration / Map / Vector / NaN / ±0 / |i| > 2^53 are outside the model.
+integers, plus the two floats on which derived `==` and the key order disagree: `-0.0`
+(`nzero`: query-equal to `0.0` and `0`, a key of its own between them) and NaN (`nan`: a key,
+equal to nothing).  DateTime / Duration / Map / Vector / |i| > 2^53 are outside the model; the
+sign of a NaN is not modelled (the key order puts -NaN below and +NaN above the numbers; `nan`
+is filed above — no result depends on it, a NaN never satisfies a comparison).
 
 Two relations on values matter, and the defects of the pinned tree all come from treating
 them as one:
@@ -33,7 +37,9 @@ inductive Val where
   | null
   | bool (b : Bool)
   | int (i : Int)
-  | flt (h : Int)            -- the float h/2
+  | flt (h : Int)            -- the float h/2 (`flt 0` is +0.0)
+  | nzero                    -- the float -0.0: `==` to 0.0 and to the integer 0, a different index key
+  | nan                      -- a float NaN: an index key of its own, equal to nothing (not even itself)
   | str (s : List Int)       -- bytes
   | lst (l : List Int)       -- Array of Integer
 deriving DecidableEq, Repr
@@ -51,8 +57,10 @@ def lexLt : List Int → List Int → Bool
 Integer below the Float on a tie -/
 def ikey : Val → List Int
   | .bool b => [0, if b then 1 else 0]
-  | .int i => [1, 2 * i, 0]
-  | .flt h => [1, h, 1]
+  | .int i => [1, 0, 2 * i, 0]
+  | .nzero => [1, 0, 0, 1]
+  | .flt h => [1, 0, h, 2]
+  | .nan => [1, 1]
   | .str s => 2 :: s
   | .lst l => 4 :: l
   | .null => [8]
@@ -69,6 +77,7 @@ deriving DecidableEq, Repr
 def num : Val → Option Int
   | .int i => some (2 * i)
   | .flt h => some h
+  | .nzero => some 0
   | _ => none
 
 def lowerByte (c : Int) : Int := if 65 ≤ c ∧ c ≤ 90 then c + 32 else c
@@ -85,6 +94,11 @@ def coercedEq : Val → Val → Bool
   | .flt a, .flt b => a == b
   | .int a, .flt b => 2 * a == b
   | .flt a, .int b => a == 2 * b
+  | .nzero, .nzero => true
+  | .nzero, .flt b => b == 0
+  | .flt a, .nzero => a == 0
+  | .nzero, .int b => 2 * b == 0
+  | .int a, .nzero => 2 * a == 0
   | .str a, .str b => a == b
   | .lst a, .lst b => a == b
   | .bool a, .str s => if lowerStr s = strTrue then a else if lowerStr s = strFalse then !a else false
@@ -174,6 +188,13 @@ def probeRanges (op : CmpOp) (v : Val) : List (Bound × Bound) :=
     | .eq => [(.excl (.flt (h - 1)), .incl (.flt h))]
     | .gt | .ge => [(.excl (.flt (h - 1)), .unb)]
     | .lt | .le => [(.unb, .incl (.flt h))]
+  | .nzero =>
+    -- `-0.0` probes like `0.0`: from just below the zeros up to `Float(0.0)`
+    match op with
+    | .eq => [(.excl (.flt (-1)), .incl (.flt 0))]
+    | .gt | .ge => [(.excl (.flt (-1)), .unb)]
+    | .lt | .le => [(.unb, .incl (.flt 0))]
+  | .nan => []
   | .bool b =>
     match op with
     | .eq => [(.unb, .unb)]
@@ -481,6 +502,8 @@ def valKey : Val → List Int
   | .bool b => [1, if b then 1 else 0]
   | .int i => [2, i]
   | .flt h => [3, h]
+  | .nzero => [6]
+  | .nan => [7]
   | .str s => 4 :: s
   | .lst l => 5 :: l
 
